@@ -135,6 +135,12 @@ def AuthRes.actor : AuthRes → String
   | .ok id _ => id
   | _ => "anonymous"
 
+/-- `Actor::audit_name`: the name stored with each command – a user id prefixed with `user:` (so no
+user id can pass for a system actor), `anonymous` for everybody else. -/
+def AuthRes.auditName : AuthRes → String
+  | .ok id _ => "user:" ++ id
+  | _ => "anonymous"
+
 /-! ## Login -/
 
 inductive LoginRes where
